@@ -72,6 +72,8 @@ impl<K: Clone + Eq + Hash, V: Value> LeastRecentlyUsedCache<K, V> {
     pub fn insert(&self, key: K, value: V) {
         let ptr = Node::new(key.clone(), value);
         let mut state = self.state.lock().unwrap();
+        #[cfg(blue_verif)]
+        crate::verif::event_tagged("lru_insert");
         state = self.insert_helper(state, ptr, key);
         while state.size > self.capacity && !state.head.is_null() {
             // SAFETY(rescrv):  We only held a reference to `node` and we dropped it before this.
@@ -84,6 +86,8 @@ impl<K: Clone + Eq + Hash, V: Value> LeastRecentlyUsedCache<K, V> {
     pub fn insert_no_evict(&self, key: K, value: V) {
         let ptr = Node::new(key.clone(), value);
         let state = self.state.lock().unwrap();
+        #[cfg(blue_verif)]
+        crate::verif::event_tagged("lru_insert_no_evict");
         drop(self.insert_helper(state, ptr, key));
     }
 
@@ -152,6 +156,8 @@ impl<K: Clone + Eq + Hash, V: Value> LeastRecentlyUsedCache<K, V> {
     pub fn remove(&self, key: &K) {
         // SAFETY(rescrv):  Mutex poisoning.
         let mut state = self.state.lock().unwrap();
+        #[cfg(blue_verif)]
+        crate::verif::event_tagged("lru_remove");
         if let Some(ptr) = state.keys.get(key) {
             let ptr = *ptr;
             // SAFETY(rescrv):  These functions are safe because we hold the mutex and no
@@ -166,6 +172,8 @@ impl<K: Clone + Eq + Hash, V: Value> LeastRecentlyUsedCache<K, V> {
     /// Lookup K if it exists.
     pub fn lookup(&self, key: &K) -> Option<V> {
         let state = self.state.lock().unwrap();
+        #[cfg(blue_verif)]
+        crate::verif::event_tagged("lru_lookup");
         let ptr = *state.keys.get(key)?;
         let value = {
             // SAFETY(rescrv):  Mutual exclusion of state guarantees no one else will make a reference.
@@ -182,6 +190,8 @@ impl<K: Clone + Eq + Hash, V: Value> LeastRecentlyUsedCache<K, V> {
     /// Pop (K, V) from the LRU, if there is one.
     pub fn pop(&self) -> Option<(K, V)> {
         let mut state = self.state.lock().unwrap();
+        #[cfg(blue_verif)]
+        crate::verif::event_tagged("lru_pop");
         if !state.tail.is_null() {
             let (k, v) = {
                 // SAFETY(rescrv):  We do this under a block and when we're the one holding the
